@@ -283,6 +283,13 @@ def valNeg : Val → Except Err Bool
   | .inf => pure false
   | _ => throw Err.typeError
 
+/-- `x <= 0` on a Python number -/
+def valNonPos : Val → Except Err Bool
+  | .num z => if z.im ≠ 0 then throw Err.typeError else pure (decide (z.re ≤ 0))
+  | .bool b => pure (!b)
+  | .inf => pure false
+  | _ => throw Err.typeError
+
 def evalC (env : List (String × Val)) : CExpr → Except Err Val
   | .param p => match env.lookup p with | some v => pure v | none => throw (Err.other "unbound parameter")
   | .re p => match env.lookup p with
@@ -308,6 +315,10 @@ def ctorValue (c : CtorSpec) (args : List (String × Val)) : Except Err (List (S
   for g in c.guards do
     match env.lookup g with
     | some v => if ← valNeg v then throw Err.valueError
+    | none => throw (Err.other "guard on an unbound parameter")
+  for g in c.guardsLE do
+    match env.lookup g with
+    | some v => if ← valNonPos v then throw Err.valueError
     | none => throw (Err.other "guard on an unbound parameter")
   for p in c.wavetypeChecks do
     match env.lookup p with
